@@ -80,6 +80,8 @@ reg = {
                               "debug_assert_no_dirty_pages", "flush_shutdown_header"]},
         # the binary searches of the leaf / branch accessors and the bound test of the range cursor, over an abstract page and an abstract total order
         "search": {"overlay": "units/search.ovl", "canaries": ["canary_search"], "helpers": ["key_unchecked", "key", "child_page", "compare"]},
+        # the double-ended cursor over the inline values of one multimap key
+        "mmiter": {"overlay": "units/mmiter.ovl", "canaries": ["canary_mmiter"], "helpers": ["key_at"]},
         "types_sep": {"overlay": "units/types_sep.ovl", "canaries": ["canary_types_sep"], "helpers": ["common_prefix_len"]},
         # the page-level checksum walk over an abstract page store
         "merkle": {"overlay": "units/merkle.ovl", "canaries": ["canary_merkle"],
@@ -228,10 +230,12 @@ P["C07"] = {
     "not_decided": "restore semantics (restore_savepoint_inner), histories, crash; malformed-record error returns; the tracker and the unpersisted allocation records beyond the stated call-sequence bound",
 }
 P["C09"] = {
-    "level": "other",
+    "level": "proof",
+    "verus": [{"unit": "mmiter", "functions": ["LeafKeyIter::next_key", "LeafKeyIter::next_key_back"]}],
     "kani": [K["C09-K1"], K["C09-K2"]],
-    "explanation": "Kernel: the per-key collection record: subtree form round trip (complete) and inline form (bounded).",
-    "not_decided": "multimap operation sequences; inline <-> subtree transitions; len",
+    "assumptions": ["M2 (mmiter unit): key_at(n) returns the n-th value of the inline collection iff n is below the number of values (its body builds a LeafAccessor over the page bytes; layout: bounded Kani harness C09-K2)"],
+    "explanation": "Kernel: (V) the REAL double-ended cursor over the values of a key stored inline (LeafKeyIter::next_key / next_key_back): the values not yet yielded are exactly the indices between the two cursors, every call yields the smallest / largest of them and removes exactly it, and None is returned exactly when none is left - so every value is yielded once whatever mixture of next() and next_back() consumes them, for every collection size; (K) the per-key collection record: subtree form round trip (complete) and inline form (bounded).",
+    "not_decided": "multimap operation sequences (insert / remove / remove_all), inline <-> subtree transitions, len(), the subtree cursor (btree_cursor.rs), compaction of multimap tables",
 }
 P["C11"] = {
     "level": "proof",
